@@ -4,6 +4,7 @@ package main
 import (
 	"fmt"
 	"strings"
+	"sync"
 
 	"gopkg.in/typ.v4/arrays"
 	"verif/lib/enum"
@@ -235,103 +236,110 @@ func main() {
 	e = &enum.E{R: r}
 	maxDim := ev.Pick(r, 4, 5)
 	pairDim := ev.Pick(r, 3, 4)
+	var swg sync.WaitGroup
 	for w := 0; w <= maxDim; w++ {
 		for h := 0; h <= maxDim; h++ {
-			shape := map[string]any{"w": w, "h": h}
-			// construction through Set on every cell, read back
-			var a arrays.Array2D[int]
-			var g grid
-			if p, m := enum.Catch(func() { a, g = fresh(w, h) }); p {
-				e.Fail("Set|panic", shape, "building a %dx%d array through Set panicked: %s", w, h, m)
-				continue
-			}
-			if d := diff(a, g, w, h); d != "" {
-				e.Fail("Set|aliasing", shape, "%dx%d array after setting every cell to a distinct label: %s", w, h, d)
-				continue
-			}
-			all := ops(w, h)
-			bad := false
-			// every single operation from the labelled state
-			for _, o := range all {
-				a, g := fresh(w, h)
-				e.Input(w != h && w > 0 && h > 0)
-				if sig, msg := apply(a, g, w, h, o, 500); sig != "" {
-					e.Fail(sig, map[string]any{"w": w, "h": h, "ops": []string{o.String()}}, "%s", msg)
-					bad = true
+			w, h := w, h
+			swg.Add(1)
+			go func() { // one goroutine per shape (the shapes are independent)
+				defer swg.Done()
+				shape := map[string]any{"w": w, "h": h}
+				// construction through Set on every cell, read back
+				var a arrays.Array2D[int]
+				var g grid
+				if p, m := enum.Catch(func() { a, g = fresh(w, h) }); p {
+					e.Fail("Set|panic", shape, "building a %dx%d array through Set panicked: %s", w, h, m)
+					return
 				}
-			}
-			if bad {
-				continue
-			}
-			// every ordered pair of operations for small shapes
-			if w <= pairDim && h <= pairDim {
-				for _, o1 := range all {
-					if o1.name == "Get" {
-						continue
+				if d := diff(a, g, w, h); d != "" {
+					e.Fail("Set|aliasing", shape, "%dx%d array after setting every cell to a distinct label: %s", w, h, d)
+					return
+				}
+				all := ops(w, h)
+				bad := false
+				// every single operation from the labelled state
+				for _, o := range all {
+					a, g := fresh(w, h)
+					e.Input(w != h && w > 0 && h > 0)
+					if sig, msg := apply(a, g, w, h, o, 500); sig != "" {
+						e.Fail(sig, map[string]any{"w": w, "h": h, "ops": []string{o.String()}}, "%s", msg)
+						bad = true
 					}
-					for _, o2 := range all {
-						a, g := fresh(w, h)
-						e.Input(w != h && w > 0 && h > 0)
-						if sig, _ := apply(a, g, w, h, o1, 500); sig != "" {
-							break
+				}
+				if bad {
+					return
+				}
+				// every ordered pair of operations for small shapes
+				if w <= pairDim && h <= pairDim {
+					for _, o1 := range all {
+						if o1.name == "Get" {
+							continue
 						}
-						if sig, msg := apply(a, g, w, h, o2, 700); sig != "" {
-							e.Fail(sig, map[string]any{"w": w, "h": h, "ops": []string{o1.String(), o2.String()}}, "after %v: %s", o1, msg)
-						}
-					}
-					if r.Violations() > 5 {
-						break
-					}
-				}
-			}
-			// New2DFilled
-			{
-				e.Call()
-				f := arrays.New2DFilled(w, h, 9)
-				gf := make(grid, h)
-				for y := range gf {
-					gf[y] = make([]int, w)
-					for x := range gf[y] {
-						gf[y][x] = 9
-					}
-				}
-				if d := diff(f, gf, w, h); d != "" {
-					e.Fail("New2DFilled", shape, "New2DFilled(%d,%d,9): %s", w, h, d)
-				}
-			}
-			// New2DFromJagged: every row count 0..h+1; row lengths cycle through 0..w+1
-			for rows := 0; rows <= h+1; rows++ {
-				for shift := 0; shift <= w+1; shift++ {
-					jag := make([][]int, rows)
-					want := make(grid, h)
-					for y := range want {
-						want[y] = make([]int, w)
-					}
-					for y := 0; y < rows; y++ {
-						l := (y + shift) % (w + 2)
-						jag[y] = make([]int, l)
-						for x := 0; x < l; x++ {
-							jag[y][x] = label(x, y)
-							if x < w && y < h {
-								want[y][x] = label(x, y)
+						for _, o2 := range all {
+							a, g := fresh(w, h)
+							e.Input(w != h && w > 0 && h > 0)
+							if sig, _ := apply(a, g, w, h, o1, 500); sig != "" {
+								break
+							}
+							if sig, msg := apply(a, g, w, h, o2, 700); sig != "" {
+								e.Fail(sig, map[string]any{"w": w, "h": h, "ops": []string{o1.String(), o2.String()}}, "after %v: %s", o1, msg)
 							}
 						}
-					}
-					e.Input(rows > h || shift > 0)
-					e.Call()
-					var ja arrays.Array2D[int]
-					rp := map[string]any{"w": w, "h": h, "jagged_rows": rows, "row_length_shift": shift}
-					if p, m := enum.Catch(func() { ja = arrays.New2DFromJagged(w, h, jag) }); p {
-						e.Fail("New2DFromJagged|panic", rp, "New2DFromJagged(%d,%d, %d rows) panicked: %s", w, h, rows, m)
-						continue
-					}
-					if d := diff(ja, want, w, h); d != "" {
-						e.Fail("New2DFromJagged|contents", rp, "New2DFromJagged(%d,%d, %v): %s", w, h, jag, d)
+						if r.Violations() > 5 {
+							break
+						}
 					}
 				}
-			}
+				// New2DFilled
+				{
+					e.Call()
+					f := arrays.New2DFilled(w, h, 9)
+					gf := make(grid, h)
+					for y := range gf {
+						gf[y] = make([]int, w)
+						for x := range gf[y] {
+							gf[y][x] = 9
+						}
+					}
+					if d := diff(f, gf, w, h); d != "" {
+						e.Fail("New2DFilled", shape, "New2DFilled(%d,%d,9): %s", w, h, d)
+					}
+				}
+				// New2DFromJagged: every row count 0..h+1; row lengths cycle through 0..w+1
+				for rows := 0; rows <= h+1; rows++ {
+					for shift := 0; shift <= w+1; shift++ {
+						jag := make([][]int, rows)
+						want := make(grid, h)
+						for y := range want {
+							want[y] = make([]int, w)
+						}
+						for y := 0; y < rows; y++ {
+							l := (y + shift) % (w + 2)
+							jag[y] = make([]int, l)
+							for x := 0; x < l; x++ {
+								jag[y][x] = label(x, y)
+								if x < w && y < h {
+									want[y][x] = label(x, y)
+								}
+							}
+						}
+						e.Input(rows > h || shift > 0)
+						e.Call()
+						var ja arrays.Array2D[int]
+						rp := map[string]any{"w": w, "h": h, "jagged_rows": rows, "row_length_shift": shift}
+						if p, m := enum.Catch(func() { ja = arrays.New2DFromJagged(w, h, jag) }); p {
+							e.Fail("New2DFromJagged|panic", rp, "New2DFromJagged(%d,%d, %d rows) panicked: %s", w, h, rows, m)
+							continue
+						}
+						if d := diff(ja, want, w, h); d != "" {
+							e.Fail("New2DFromJagged|contents", rp, "New2DFromJagged(%d,%d, %v): %s", w, h, jag, d)
+						}
+					}
+				}
+			}()
 		}
 	}
+	swg.Wait()
 	// Large/odd-shape family: long thin and wide arrays, a power-of-two square, empty sides
 	famCalls := 0
 	for _, sh := range [][2]int{{1, 17}, {17, 1}, {16, 16}, {33, 7}, {7, 33}, {0, 9}, {9, 0}, {2, 64}, {64, 2}} {
